@@ -305,3 +305,53 @@ def class_matrix(v, n, mclass="projective", off=0):
     if X.det([[Fraction(x).limit_denominator(16) for x in r] for r in m]) == 0:
         raise Skip("singular")
     return m
+
+
+# ------------------------------------------------------------------------------------------- derived objects
+WARM_ATTRS = ("vertices", "edges", "faces", "area", "centroid", "length", "midpoint", "_line", "_plane", "dual", "is_degenerate", "center", "radius",
+              "components", "volume", "general_point", "base_point", "direction", "basis_matrix", "normalized_array", "isinf", "isreal")
+
+DERIVATIONS = (None, None, "translation*", "+point", "scaling*")
+
+
+def warm(obj, point=None):
+    """Use an object before it is derived from: evaluate its parameterless queries (and contains(point) if a point is given).
+    Whatever a query leaves behind in the object (memoised values, views) is then present when the object is transformed.
+    Exceptions are ignored here: the value of each query is the subject of other checks."""
+    for name in WARM_ATTRS:
+        try:
+            getattr(obj, name)
+        except Exception:  # noqa: BLE001
+            pass
+    if point is not None:
+        try:
+            obj.contains(point)
+        except Exception:  # noqa: BLE001
+            pass
+
+
+def derive_moved(build, rows, how, m, warm_point=None, prepare=None):
+    """Build the object with homogeneous vertex rows `rows` not directly but by derivation: construct its exact pre-image
+    under an integer translation by m (or the scaling by 2), use it once (warm + optional prepare(obj0)), then move it with
+    the library (translation(m) * obj0, obj0 + Point(m), scaling(2, ..) * obj0). All maps are exact in floating point, so the
+    derived object has exactly the vertex rows `rows` up to the representative. how=None builds directly."""
+    rows = np.asarray(rows, dtype=float)
+    if how is None:
+        return build(rows)
+    d = rows.shape[-1] - 1
+    m = np.asarray(list(m)[:d] + [1] * max(0, d - len(m)), dtype=float)
+    if how == "scaling*":
+        rows0 = rows * np.append(np.full(d, 0.5), 1.0)
+    elif how in ("translation*", "+point"):
+        rows0 = rows - rows[..., -1:] * np.append(m, 0.0)
+    else:
+        raise Skip("unknown derivation")
+    obj0 = build(rows0)
+    warm(obj0, warm_point(rows0) if warm_point is not None else None)
+    if prepare is not None:
+        prepare(obj0)
+    if how == "scaling*":
+        return G.scaling(*([2.0] * d)) * obj0
+    if how == "translation*":
+        return G.translation(*m) * obj0
+    return obj0 + G.Point(*m)
